@@ -192,7 +192,8 @@ class ExtractStream(Stream):
     def impl(self, case):
         from reuse import extract
         text = extract.filter_ignore_block(case["t"])
-        lic = sorted(set(extract.find_spdx_tag(text, extract._LICENSE_IDENTIFIER_PATTERN)))
+        # (a licence tag without a value declares nothing: extract_reuse_info skips the empty text, for which the parser returns None)
+        lic = sorted(v for v in set(extract.find_spdx_tag(text, extract._LICENSE_IDENTIFIER_PATTERN)) if v)
         con = sorted(set(extract.find_spdx_tag(text, extract._CONTRIBUTOR_PATTERN)))
         cpr = set()
         for line in text.splitlines():
@@ -203,6 +204,7 @@ class ExtractStream(Stream):
         try:
             info = extract.extract_reuse_info(case["t"])
             assert sorted(info.copyright_lines) == sorted(cpr) and sorted(info.contributor_lines) == con, "extract_reuse_info differs from its parts"
+            assert None not in info.spdx_expressions and bool(info.spdx_expressions) == bool(lic), "extract_reuse_info keeps an empty licence value"
         except AssertionError:
             raise
         except Exception:
